@@ -12,3 +12,9 @@ claim("C06",
       "(cross-checked by a native tally of the vectors run).",
       "Trusted: CPython, CrossHair path bookkeeping (+tally cross-check), z3, Floyd-Warshall reference (validated against DFS).",
       "CrossHair symbolic execution (pattern D: solver-enumerated label vectors) + z3", "DESIGN.md 2/C06")
+claim("C15",
+      "Bounded symbolic execution of the real ClassDB over request histories (get_label / get_class / is_empty / set_empty "
+      "on a pool of stub classes, three storage variants); every request is a solver variable, after each request all "
+      "lookups and membership tests are compared with a reference dictionary. Exhaustive inside the bound.",
+      "Trusted: CPython, CrossHair path bookkeeping (+tally cross-check), z3; stub classes honour the eq/hash and to_bytes/from_bytes contracts.",
+      "CrossHair symbolic execution (pattern D: solver-enumerated request histories) + z3", "DESIGN.md 2/C15")
